@@ -45,6 +45,9 @@ func childDirected(b run.Batch, r *ev.Result) {
 	if !lateFreshStart(b, r, rng) || abandoned.Load() {
 		return
 	}
+	if !closeInFlight(b, r, rng) || abandoned.Load() {
+		return
+	}
 	if !abandonCells(b, r, rng) || abandoned.Load() {
 		return
 	}
